@@ -5,8 +5,13 @@ or patch.diff to /repo, runs ./vcheck <prop>, reverts /repo straight afterwards.
 import json, os, subprocess, sys, time
 
 V = os.path.dirname(os.path.dirname(os.path.abspath(__file__)))
+# SEED_REPO: a scratch worktree of /repo at the same HEAD (a second lane next to the one working on /repo itself)
+REPO = os.environ.get("SEED_REPO", "/repo")
+ENV = dict(os.environ)
+if REPO != "/repo":
+    ENV.update(VF_REPO=REPO, PYTHONPATH=os.path.join(REPO, "src"))
 names = sys.argv[1:] or sorted(os.listdir(os.path.join(V, "seeded")))
-assert subprocess.run(["git", "-C", "/repo", "status", "--porcelain", "--untracked-files=no"], capture_output=True, text=True).stdout.strip() == "", "/repo is dirty"
+assert subprocess.run(["git", "-C", REPO, "status", "--porcelain", "--untracked-files=no"], capture_output=True, text=True).stdout.strip() == "", "/repo is dirty"
 for n in names:
     d = os.path.join(V, "seeded", n)
     if not os.path.isfile(os.path.join(d, "patch.diff")):
@@ -19,20 +24,20 @@ for n in names:
     ev_path = os.path.join(d, "eval.json")
     ev = json.load(open(ev_path)) if os.path.exists(ev_path) else {"property": prop}
     patch = os.path.join(d, "patch_head.diff") if os.path.exists(os.path.join(d, "patch_head.diff")) else os.path.join(d, "patch.diff")
-    r = subprocess.run(["git", "-C", "/repo", "apply", patch], capture_output=True, text=True)
-    fin = {"patch": os.path.basename(patch), "repo_head": subprocess.run(["git", "-C", "/repo", "rev-parse", "--short", "HEAD"], capture_output=True, text=True).stdout.strip()}
+    r = subprocess.run(["git", "-C", REPO, "apply", patch], capture_output=True, text=True)
+    fin = {"patch": os.path.basename(patch), "tree": REPO, "repo_head": subprocess.run(["git", "-C", REPO, "rev-parse", "--short", "HEAD"], capture_output=True, text=True).stdout.strip()}
     if r.returncode != 0:
         fin["apply_error"] = r.stderr[-300:]
     else:
         try:
             t = time.time()
-            c = subprocess.run([os.path.join(V, "vcheck"), check, "--tier", "quick"], capture_output=True, text=True, timeout=3600)
+            c = subprocess.run([os.path.join(V, "vcheck"), check, "--tier", "quick"], capture_output=True, text=True, timeout=3600, env=ENV)
             fin.update(check=check, exit=c.returncode, violations=len([l for l in c.stdout.splitlines() if l.startswith("VIOLATION")]),
                        what=[l.strip()[:300] for l in c.stdout.splitlines() if l.strip().startswith("what:")][:3], wall_s=round(time.time() - t, 1))
             if c.returncode == 2:
                 fin["stderr"] = c.stderr[-500:]
         finally:
-            subprocess.run(["git", "-C", "/repo", "checkout", "--", "."])
+            subprocess.run(["git", "-C", REPO, "checkout", "--", "."])
     ev["final"] = fin
     json.dump(ev, open(ev_path, "w"), indent=1)
     print(f"== {n}: {fin.get('patch')} exit={fin.get('exit')} violations={fin.get('violations')} {fin.get('apply_error', '')[:80]}", flush=True)
